@@ -204,17 +204,17 @@ def cli(x, p):
     rc, exc = clikit.run_main(argv)
     x.out('rc', repr(rc))
     x.out('exc', repr(exc)[:100])
-    wrote = dest in fs.opened_for_write
+    wrote = dest in fs.opened_for_write and dest in fs.files
     x.tag('%s / %s / %s' % (cmd, bad, 'written' if wrote else 'not written'))
     if exc is not None or rc != 0:
         x.check('a failed command leaves the destination exactly as it was',
-                And(not wrote, fs.files.get(dest) == before))
+                fs.files.get(dest) == before)
         x.check('a failed command creates no other file',
-                len(fs.opened_for_write) == 0)
+                clikit.changed(fs) == [])
     if bad == 'good':
         x.check('with good input the command succeeds and writes the '
                 'destination', And(exc is None, rc == 0, wrote))
-    if wrote:
+    if wrote and exc is None and rc == 0:
         # whatever was written is a complete, loadable cart holding all of
         # the code's tokens (never a shortened program)
         got = clikit.lua_of(fs.files[dest])
